@@ -62,7 +62,7 @@ type decompressor struct {
 	eof           bool
 }
 
-func (r *decompressor) Reset(under io.Reader, _ []byte) error {
+func (r *decompressor) Reset(under io.Reader, dict []byte) error {
 	r.r = under
 	if ur, ok := under.(*bufio.Reader); ok {
 		r.rBuf = ur
@@ -81,6 +81,16 @@ func (r *decompressor) Reset(under io.Reader, _ []byte) error {
 	// handed out, and its history must not be a legal match source.
 	r.writePos = 0
 	r.readPos = 0
+	if len(dict) > 0 {
+		// preset dictionary: it is history the new stream may refer back to,
+		// never output
+		if len(dict) > historySize {
+			dict = dict[len(dict)-historySize:]
+		}
+		n := copy(r.historyBuffer[:], dict)
+		r.writePos = n
+		r.readPos = n
+	}
 	r.state.reset()
 	return nil
 }
